@@ -428,6 +428,11 @@ def _fn_in(src, impl_regex, fn, nth=0):
     return squeeze(_sub_source(src, blk).fn_body(fn, nth=nth)[0])
 
 
+def no_trailing_commas(s):
+    # rustfmt adds or drops them when an expression is re-wrapped
+    return s.replace(',)', ')').replace(',}', '}').replace(',]', ']')
+
+
 def mask_codes(s):
     return re.sub(r'Code::\w+', 'Code::#', s)
 
@@ -487,7 +492,7 @@ def frame_bodies(repo):
     b['handle_quic_stream_error'] = squeeze(ce.fn_body('handle_quic_stream_error')[0])
     b['handle_connection_error_on_stream'] = squeeze(ce.fn_body('handle_connection_error_on_stream')[0])
     b['control error arms'] = mask_codes(''.join(p + '=>' + a + ';' for p, a in control_error_arms(repo)))
-    return b
+    return {k: no_trailing_commas(v) for k, v in b.items()}
 
 
 def control_error_arms(repo):
